@@ -1564,7 +1564,7 @@ def _collect_if_structure(lines: List[str], start: int) -> Tuple[List[str], int]
     snippet.extend(block)
     while i < len(lines):
         raw = lines[i]
-        text = raw.strip()
+        text = _strip_inline_comment(raw).strip()
         if not text:
             snippet.append(raw)
             i += 1
@@ -1587,7 +1587,7 @@ def _collect_try_structure(lines: List[str], start: int) -> Tuple[List[str], int
     snippet.extend(block)
     while i < len(lines):
         raw = lines[i]
-        text = raw.strip()
+        text = _strip_inline_comment(raw).strip()
         if not text:
             snippet.append(raw)
             i += 1
@@ -2662,7 +2662,7 @@ def _parse_simple_lines(
             j = next_idx
             while j < len(snippet):
                 probe_raw = snippet[j]
-                probe_text = probe_raw.strip()
+                probe_text = _strip_inline_comment(probe_raw).strip()
                 if not probe_text:
                     j += 1
                     continue
@@ -2783,7 +2783,7 @@ def _parse_simple_lines(
 
             while j < len(snippet):
                 probe_raw = snippet[j]
-                probe_text = probe_raw.strip()
+                probe_text = _strip_inline_comment(probe_raw).strip()
                 if not probe_text:
                     j += 1
                     continue
@@ -4326,7 +4326,7 @@ def parse(src: str) -> Program:
     i = 0
     while i < len(lines):
         raw = lines[i]
-        text = raw.strip()
+        text = _strip_inline_comment(raw).strip()
 
         if not text or text.startswith('#'):
             i += 1; continue
